@@ -275,17 +275,24 @@ SPECS["C11"] = {
                    "outstanding; the event wait-group counter = parked events) - covers histories of any length. HIST: 2..4 commands from the real initial "
                    "state. Asserted: a datapoint/event leaves at once iff its source is known or empty, else is parked; when the lookup completes everything "
                    "parked for the source leaves exactly once (counter totals and event counts compared), tagged and re-sourced iff an instance was found; no "
-                   "second lookup while one is outstanding; emitted gauges equal the true numbers; the invariant is re-established.",
-    "bounds": {"quick": "2 sources, <= 2 parked events per source in the arbitrary state; histories of <= 3 commands", "thorough": "histories of <= 4 commands"},
-    "outside": ["real concurrency between dispatchers and the owner goroutine (the owner's select loop serialises them; `go updateAndDispatch*` runs inline)",
+                   "second lookup while one is outstanding; emitted gauges equal the true numbers; the invariant is re-established. LOOP: the real CloudHandler.Run goroutine (select "
+                   "over lookup hand-off, answers, incoming metrics and events, unbuffered channels as built by NewCloudHandler) with the real DispatchMetricMap / DispatchEvent entry points, "
+                   "a harness cache whose per-source content is symbolic (unknown / known without instance / known with instance) and whose lookup channels the harness serves, 2..3 items "
+                   "(metric batch or event, source and value symbolic, the last one optionally arriving while lookups are outstanding), answers in a symbolic order with symbolic outcomes: "
+                   "items of known sources leave at once, nothing of an unknown source leaves before its answer, exactly one lookup request per unknown source with items (none surplus - "
+                   "checked by a receive that only a timer ends), the waiting gauges equal the true numbers, after an answer every waiting item of that source has left exactly once, tags "
+                   "and source follow the outcome, nothing is left waiting or counted at the end.",
+    "bounds": {"quick": "2 sources, <= 2 parked events per source in the arbitrary state; histories of <= 3 commands; loop: 2..3 items", "thorough": "histories of <= 4 commands"},
+    "outside": ["real concurrency between dispatchers and the owner goroutine beyond the engine's cooperative interleavings (goroutines switch at blocking operations; every multi-ready select forked)",
                 "context cancellation during dispatch"],
     "assumptions": STUBS_COMMON + [MATH_NOTE, "the step harness's invariant is an exact description of the handler state over the ghost variables; a step counterexample replays natively from that state"],
     "jobs": [
         {"pkg": "./pkg/statsd", "harness": "pkg/statsd", "mode": "math",
-         "entries": {"quick": ["VerifC11_Step", "VerifC11_Hist2", "VerifC11_Hist3", "VerifC11_Twin"],
-                     "thorough": ["VerifC11_Step", "VerifC11_Hist2", "VerifC11_Hist3", "VerifC11_Hist4", "VerifC11_Twin"]},
-         "reach": {"VerifC11_Step": ["emit", "event-hit", "event-parked", "events-released", "lookup-sent", "metric-hit", "metric-parked", "metrics-released"]},
-         "twin": {"VerifC11_Twin": True},
+         "entries": {"quick": ["VerifC11_Step", "VerifC11_Hist2", "VerifC11_Hist3", "VerifC11_Loop2", "VerifC11_Loop3", "VerifC11_Twin"],
+                     "thorough": ["VerifC11_Step", "VerifC11_Hist2", "VerifC11_Hist3", "VerifC11_Hist4", "VerifC11_Loop2", "VerifC11_Loop3", "VerifC11_Twin"]},
+         "reach": {"VerifC11_Step": ["emit", "event-hit", "event-parked", "events-released", "lookup-sent", "metric-hit", "metric-parked", "metrics-released"],
+                   "VerifC11_Loop3": ["answered", "late-item", "loop-done"]},
+         "twin": {"VerifC11_Twin": True}, "blocked_is_violation": True,
          "limits": {"quick": {"timeout": "600s"}, "thorough": {"timeout": "1800s"}}},
     ],
 }
